@@ -41,6 +41,8 @@ pub struct RunStats {
     pub probes: BTreeMap<&'static str, u64>,
     pub shapes: BTreeSet<u64>,
     pub bytes: u64,
+    /// (task, op, what, memory before, memory after) snapshots for the self-composition judge (C17)
+    pub blobs: Vec<(usize, usize, String, Vec<u8>, Vec<u8>)>,
 }
 
 pub struct ExecOut {
@@ -82,8 +84,9 @@ pub struct RSlot {
 pub struct CvSlot {
     pub cv: [u8; 32],
     pub mode: MMode,
-    /// contiguous span of data it covers: (data index, byte offset in data = tree offset, len)
-    pub span: Option<(usize, usize, usize)>,
+    /// the bytes this chaining value covers and their offset in the whole input, when known
+    pub bytes: Option<Vec<u8>>,
+    pub off: u64,
 }
 
 pub enum Slot {
